@@ -1,5 +1,104 @@
 package c03
 
-import "hv/fw"
+import (
+	"sort"
+	"strings"
 
-func corpusCases() []fw.Case { return nil }
+	"hv/fw"
+	"hv/util"
+)
+
+// corpusAccepted lists the shipped programs that the analyzer accepts on the unchanged tree
+// (with mainShallExist=true and their sibling files available as modules). They are used as
+// extra accept cases only: a later change that makes one of them fail is reported.
+var corpusAccepted = map[string]bool{
+	"examples/apery.hms":                            true,
+	"examples/binary.hms":                           true,
+	"examples/box.hms":                              true,
+	"examples/dates.hms":                            true,
+	"examples/dev.hms":                              true,
+	"examples/e.hms":                                true,
+	"examples/fib_lib.hms":                          true,
+	"examples/fibonacci.hms":                        true,
+	"examples/fizzbuzz.hms":                         true,
+	"examples/iterators.hms":                        true,
+	"examples/linear_gradient.hms":                  true,
+	"examples/linear_gradient_2d.hms":               true,
+	"examples/lists.hms":                            true,
+	"examples/matrix.hms":                           true,
+	"examples/objects.hms":                          true,
+	"examples/pi.hms":                               true,
+	"examples/pow.hms":                              true,
+	"examples/primes.hms":                           true,
+	"examples/sig_term.hms":                         true,
+	"examples/singleton1.hms":                       true,
+	"tests/a.hms":                                   true,
+	"tests/annotations.hms":                         true,
+	"tests/any_casts.hms":                           true,
+	"tests/anyobj.hms":                              true,
+	"tests/builtin_members.hms":                     true,
+	"tests/casts.hms":                               true,
+	"tests/export.hms":                              true,
+	"tests/function.hms":                            true,
+	"tests/global.hms":                              true,
+	"tests/imports_from_a.hms":                      true,
+	"tests/ints.hms":                                true,
+	"tests/iter.hms":                                true,
+	"tests/loop.hms":                                true,
+	"tests/match.hms":                               true,
+	"tests/match2.hms":                              true,
+	"tests/member.hms":                              true,
+	"tests/normal_casts.hms":                        true,
+	"tests/regression_anyobj_cast.hms":              true,
+	"tests/regression_arguments.hms":                true,
+	"tests/regression_first_class_fn.hms":           true,
+	"tests/regression_foreign_globals.hms":          true,
+	"tests/regression_foreign_globals_callee.hms":   true,
+	"tests/regression_foreign_globals_provider.hms": true,
+	"tests/regression_iterators.hms":                true,
+	"tests/regression_push_clone.hms":               true,
+	"tests/regression_range_type.hms":               true,
+	"tests/regression_return.hms":                   true,
+	"tests/regression_scoping.hms":                  true,
+	"tests/statements.hms":                          true,
+	"tests/string_conversion.hms":                   true,
+	"tests/try.hms":                                 true,
+	"tests/types.hms":                               true,
+}
+
+// corpusSources builds the source set of one corpus file: the file itself as entry module "main",
+// its siblings under their base names.
+func corpusSources(corpus map[string]string, name string) map[string]string {
+	dir := name[:strings.Index(name, "/")+1]
+	mods := map[string]string{"main": corpus[name]}
+	for k, v := range corpus {
+		if k != name && strings.HasPrefix(k, dir) {
+			if base := strings.TrimSuffix(k[len(dir):], ".hms"); base != "main" {
+				mods[base] = v
+			}
+		}
+	}
+	return mods
+}
+
+func corpusCases() []fw.Case {
+	corpus := util.Corpus()
+	names := make([]string, 0, len(corpus))
+	for k := range corpus {
+		names = append(names, k)
+	}
+	sort.Strings(names)
+	var out []fw.Case
+	for _, n := range names {
+		if !corpusAccepted[n] {
+			continue
+		}
+		// marker characters do not occur in the shipped programs
+		if strings.ContainsAny(corpus[n], "«»¦") {
+			continue
+		}
+		p := Payload{Name: n, Group: "corpus", Mods: corpusSources(corpus, n), Main: true, Construct: "corpus", NoMutants: true, NoTypes: true}
+		out = append(out, fw.MkCase("c03-corpus-"+n, "corpus", p))
+	}
+	return out
+}
